@@ -161,7 +161,7 @@ M('herm-ctor-nev-off-by-one', 'C12', 'range-guard-equals-documented-range',
     }
 
     // If op is an rvalue""")], 'lvalue constructor accepts nev = 0; siblings disagree')
-M('gen-ctor-ncv-relaxed', 'C12,C13', 'range-guard-equals-documented-range',
+M('gen-ctor-ncv-relaxed', 'C12,C13', 'range-guard-equals-documented-range,index-within-extent',
   [('GenEigsBase.h', "if (ncv < nev + 2 || ncv > m_n)", "if (ncv < nev + 1 || ncv > m_n)")], 'ncv = nev + 1 accepted: restart size can reach ncv - 1 and the conjugate-pair look-ahead')
 M('gen-ctor-wrong-exception', 'C12', 'rejections-are-invalid_argument',
   [('GenEigsBase.h', 'throw std::invalid_argument("nev must satisfy 1 <= nev <= n - 2, n is the size of matrix");', 'throw std::out_of_range("nev must satisfy 1 <= nev <= n - 2, n is the size of matrix");')])
@@ -302,7 +302,7 @@ M('arnoldi-forgets-restart-flag', 'C07', 'subdiagonal-zero-iff-fresh-direction',
                 restart = true;""", """                expand_basis(V, 2 * i, m_fac_f, m_beta, op_counter);""")], 'after a breakdown H(i,i-1) = new beta: A V = V H + f e\' broken')
 M('lanczos-subdiag-arms-swapped', 'C07', 'subdiagonal-zero-iff-fresh-direction',
   [('LinAlg/Lanczos.h', "m_fac_H(i, i - 1) = restart ? Scalar(0) : Scalar(m_beta);", "m_fac_H(i, i - 1) = restart ? Scalar(m_beta) : Scalar(0);")])
-M('doubleshift-decrements-once', 'C07,C13', 'restart-shift-accounting',
+M('doubleshift-decrements-once', 'C07', 'restart-shift-accounting',
   [('LinAlg/Arnoldi.h', """        decomp.matrix_QtHQ(m_fac_H);
         m_k -= 2;""", """        decomp.matrix_QtHQ(m_fac_H);
         m_k--;""")], 'only complex Ritz values as shifts expose it')
@@ -350,6 +350,65 @@ M('symshift-writes-ritz-in-ctor-helper', 'C04', 'ritz-values-written-only-by-ret
     }
 
     void shift_back() { m_ritz_val.head(m_nev).array() -= m_sigma; }""")])
+
+# ----------------------------------------------------------------------------- C13
+M('gen-restart-lookahead-unbounded', 'C13,C02', 'index-within-extent',
+  [('GenEigsBase.h', "if (i + 1 < m_ncv && is_complex(m_ritz_val[i]) && is_conj(m_ritz_val[i], m_ritz_val[i + 1]))", "if (is_complex(m_ritz_val[i]) && is_conj(m_ritz_val[i], m_ritz_val[i + 1]))")],
+  'reverts fix F8: reads m_ritz_val[ncv] (only with ncv > 16 and an exact-tie conjugate pair split by the unstable sort)')
+M('herm-restart-size-clamp-off-by-one', 'C13', 'index-within-extent',
+  [('HermEigsBase.h', """        if (nev_new > m_ncv - 1)
+            nev_new = m_ncv - 1;""", """        if (nev_new > m_ncv)
+            nev_new = m_ncv;""")], 'k = ncv: restart() returns early, the loop in compute() spins without progress towards convergence')
+M('herm-sort-loop-inclusive', 'C13', 'index-within-extent',
+  [('HermEigsBase.h', """        for (Index i = 0; i < m_nev; i++)
+        {
+            new_ritz_val[i] = m_ritz_val[ind[i]];""", """        for (Index i = 0; i <= m_nev; i++)
+        {
+            new_ritz_val[i] = m_ritz_val[ind[i]];""")])
+M('gen-retrieve-vectors-all-ncv', 'C13', 'index-within-extent',
+  [('GenEigsBase.h', """        for (Index i = 0; i < m_nev; i++)
+        {
+            m_ritz_vec.col(i).noalias() = evecs.col(ind[i]);""", """        for (Index i = 0; i < m_ncv; i++)
+        {
+            m_ritz_vec.col(i).noalias() = evecs.col(ind[i]);""")], 'm_ritz_vec has nev columns')
+M('expand-basis-applies-every-attempt', 'C13', 'operator-application-bound',
+  [('LinAlg/Arnoldi.h', """            if (iter == 0)
+            {
+                rng.random_vec(v);
+                m_op.perform_op(v.data(), f.data());
+                op_counter++;
+            }
+            else
+            {
+                rng.random_vec(f);
+            }""", """            rng.random_vec(v);
+            m_op.perform_op(v.data(), f.data());
+            op_counter++;""")], 'up to 5 applications per breakdown: the documented bound no longer holds')
+M('arnoldi-reorth-loop-no-count', 'C13', 'loop-makes-progress',
+  [('LinAlg/Arnoldi.h', """                m_op.adjoint_product(Vs, m_fac_f, Vf.head(i1));
+                ortho_err = Vf.head(i1).cwiseAbs().maxCoeff();
+                count++;""", """                m_op.adjoint_product(Vs, m_fac_f, Vf.head(i1));
+                ortho_err = Vf.head(i1).cwiseAbs().maxCoeff();""")], 'terminates only if the orthogonality error happens to drop')
+M('arnoldi-init-in-place-apply', 'C13', 'operator-buffers-distinct',
+  [('LinAlg/Arnoldi.h', """        Vector w(m_n);
+        m_op.perform_op(v.data(), w.data());
+        op_counter++;
+
+        m_fac_H(0, 0) = m_op.inner_product(v, w);""", """        Vector w(m_n);
+        m_op.perform_op(v.data(), v.data());
+        op_counter++;
+        w = v;
+
+        m_fac_H(0, 0) = m_op.inner_product(v, w);""")], 'operator applied in place')
+M('schur-exceptional-shift-uncounted', 'C13', 'loop-makes-progress',
+  [('LinAlg/UpperHessenbergSchur.h', """                    iter++;
+                    total_iter++;
+                    if (total_iter > max_iter)
+                        break;""", """                    iter++;
+                    if (iter > 10)
+                        total_iter++;
+                    if (total_iter > max_iter)
+                        break;""")], 'iterations with iter <= 10 are not counted: cap can be evaded indefinitely if iter keeps being reset')
 
 # behaviour-preserving edits: every listed check must stay silent (exit 0)
 NEUTRAL = []
